@@ -52,6 +52,7 @@ REQUIRED = REQUIRED + [t for t in _C08.C07_DERIVED_REQUIRED if t not in REQUIRED
 
 def prepare(seed, tier):
     from verifkit.props import C08
+    C08.ID_FOR_ATTRS[0] = False
     C08.prepare(seed, tier)          # regenerates the crate of derived types (harness/dgen) from the seed
 
 
@@ -109,7 +110,7 @@ def streams(rng, tier):
     s3 = Stream("exact-buffer", "hcore", xb, judge=judge_xb,
                 rule="Encoder call chains (many ending in an empty string / byte string) into slice and cursor sinks of exactly len bytes (must succeed) and len-1 bytes (must fail)")
     s3.shrinkable = False
-    return [s1, s2, s3] + derived
+    return [s1, s2, s3] + derived + [C08.attr_stream(tier, "len")]
 
 
 def _judge_derived(op, impl, model, spec):
